@@ -556,6 +556,11 @@ func (E *Engine) compFromExpr(ev *cenv, e *CExpr) string {
 		}
 		root := E.rootName(T)
 		rest := strings.Join(parts[n:], ".")
+		if len(parts[n:]) == 1 {
+			if glv := E.ghostFieldLV(T, "0", rest); glv != nil {
+				return compName(E.rootOf(glv), "")
+			}
+		}
 		return compName(root, rest)
 	}
 	panic(engineErr("comp(): cannot resolve " + e.String()))
